@@ -714,3 +714,109 @@ def _replay_selector(dim):
 
 CUSTOM["cooler.core._selectors:RangeSelector1D.__getitem__"] = _replay_selector(1)
 CUSTOM["cooler.core._selectors:RangeSelector2D.__getitem__"] = _replay_selector(2)
+
+
+@custom("cooler.create._create:create")
+def _replay_create(inputs, ghost=None):
+    """the counter-model's own mode / append / occupied bits first; then the neighbouring file modes with an
+    occupied target (solvers return the default write mode, under which a stale collection cannot survive)"""
+    g = dict(ghost or {})
+    first = None
+    tried = [(inputs.get("mode"), bool(inputs.get("append")), bool(g.get("r_group_exists", True)))]
+    tried += [x for x in [("a", False, True), (None, True, True), ("r+", False, True), ("w", False, True)] if x not in tried]
+    for n, (mode, append, occ) in enumerate(tried):
+        inp = dict(inputs, mode=mode, append=append)
+        gg = dict(g, r_group_exists=occ)
+        out = _create_once(inp, gg)
+        out["variant"] = "the counter-model's file mode" if n == 0 else "neighbouring file mode (same flags otherwise)"
+        if first is None:
+            first = out
+        if out.get("violates_contract") or out.get("note"):
+            return out if out.get("violates_contract") else first
+    return first
+
+
+def _create_once(inputs, ghost=None):
+    """real files for a counter-model of the create() contract: a file that already holds an unrelated
+    collection and (when the model says the target exists) an older, different collection with a stale extra
+    dataset at the target; then create() with the model's mode / append / flags; then the property itself:
+    append keeps everything else, write replaces the file, an occupied target is replaced completely, and
+    the new collection reads back as given with consistent indexes and info."""
+    import os
+    import shutil
+    import tempfile
+    import h5py
+    import numpy as np
+    import pandas as pd
+    import cooler
+    from cooler.create._create import create
+    g = ghost or {}
+    out = {"inputs_used": {k: inputs.get(k) for k in ("mode", "append", "symmetric_upper", "boundscheck", "triucheck",
+                                                       "dupcheck", "ensure_sorted")}}
+    if g.get("r_scool") or g.get("r_refusal"):
+        out.update(violations=[], violates_contract=False, note="single-cell append / refusal configurations are not replayed")
+        return out
+    root = bool(g.get("r_root"))
+    occupied = bool(g.get("r_group_exists", True))
+    mode, append = inputs.get("mode"), bool(inputs.get("append"))
+    su = bool(inputs.get("symmetric_upper", True))
+    eff = mode if mode is not None else ("a" if append else "w")
+    d = tempfile.mkdtemp(prefix="pyvc_create_")
+    p = os.path.join(d, "f.cool")
+    target = p if root else p + "::/grp/x"
+    bins = pd.DataFrame({"chrom": ["a", "a", "b"], "start": [0, 5, 0], "end": [5, 9, 4]})
+    old = pd.DataFrame({"bin1_id": [0, 1], "bin2_id": [1, 2], "count": [7, 7]})
+    # four pixels over three bins (so counts cannot be confused); a lower-triangle record in square mode
+    new = pd.DataFrame({"bin1_id": [0, 0, 1, 2], "bin2_id": [0, 2, 1, 2 if su else 0], "count": [1, 2, 3, 4]})
+    cooler.create_cooler(p + "::/other", bins, old)
+    with h5py.File(p, "r+") as f:
+        f.attrs["unrelated"] = 5
+    if occupied:
+        cooler.create_cooler(target, bins, old, mode="a")
+        with h5py.File(p, "r+") as f:
+            tg = f["/" if root else "/grp/x"]
+            if not root:
+                tg.create_dataset("stale", data=np.arange(3))
+    raised = None
+    try:
+        create(target, bins, new, mode=mode, append=append, symmetric_upper=su,
+               boundscheck=bool(inputs.get("boundscheck", True)), triucheck=bool(inputs.get("triucheck", True)),
+               dupcheck=bool(inputs.get("dupcheck", True)), ensure_sorted=bool(inputs.get("ensure_sorted", False)))
+    except Exception as e:
+        raised = e
+    out["raised"] = None if raised is None else f"{type(raised).__name__}: {raised}"
+    viol = []
+    if raised is not None:
+        if eff == "r+" or eff == "a" or eff == "w":
+            viol.append(f"create raised {out['raised']}")
+    else:
+        try:
+            c = cooler.Cooler(target)
+            px = c.pixels()[:]
+            if not (list(px["bin1_id"]) == list(new["bin1_id"]) and list(px["bin2_id"]) == list(new["bin2_id"])
+                    and list(px["count"]) == [1, 2, 3, 4]):
+                viol.append("the new collection does not read back as the pixels given")
+            if c.info["nnz"] != 4 or c.info["nbins"] != 3 or c.info["sum"] != 10:
+                viol.append(f"info record wrong: {dict((k, c.info[k]) for k in ('nnz', 'nbins', 'sum'))}")
+            if c.info.get("storage-mode") != ("symmetric-upper" if su else "square"):
+                viol.append("storage-mode attribute does not follow symmetric_upper")
+            with h5py.File(p, "r") as f:
+                tg = f["/" if root else "/grp/x"]
+                if list(tg["indexes/bin1_offset"][:]) != [0, 2, 3, 4] or list(tg["indexes/chrom_offset"][:]) != [0, 2, 3]:
+                    viol.append("indexes do not describe the written tables")
+                if not root and "stale" in tg:
+                    viol.append("re-creating at an occupied path kept a stale dataset of the old collection")
+                kept = "other" in f and "unrelated" in f.attrs
+                if eff == "w" and ("other" in f):
+                    viol.append("write mode did not replace the file (an older collection survived)")
+                if eff in ("a", "r+") and not kept:
+                    viol.append("append mode lost another collection or an unrelated attribute of the file")
+            if eff in ("a", "r+"):
+                o = cooler.Cooler(p + "::/other").pixels()[:]
+                if list(o["count"]) != [7, 7]:
+                    viol.append("append mode changed another collection")
+        except Exception as e:
+            viol.append(f"the result cannot be read: {type(e).__name__}: {e}")
+    shutil.rmtree(d, ignore_errors=True)
+    out.update(returned=None, violations=viol, violates_contract=bool(viol))
+    return out
